@@ -9,6 +9,7 @@ import KoordVerif.Proofs.C19ExtQuota
 import KoordVerif.Proofs.C19ExtEvents
 import KoordVerif.Proofs.C19ExtBoot
 import KoordVerif.Proofs.C19ExtAdapter
+import KoordVerif.Proofs.C19ExtPreBind
 /-
 C19 — scheduler allocation state survives a restart unchanged.  Property theorems.
 
@@ -904,5 +905,110 @@ theorem adapter_waiting_holds (v : Adapter.RV) (hv : Adapter.valid v = true) (hn
 /-- non-vacuous: Pending(unscheduled) → Available → Succeeded gives add, delete -/
 example : Adapter.calls ⟨true, true, true, false, 0⟩ [⟨true, true, true, true, 1⟩, ⟨true, true, true, true, 3⟩]
     = [.add, .del] := by decide
+
+/-! ### S4. the WRITE side of PreBind (Model/C19PreBind.lean; numa stream `retry`, harness `devadapt`) -/
+
+/-- the annotation PreBind writes depends only on the allocation of the CURRENT cycle, never on what the object
+    already carried (a stale resource-status of an earlier attempt that failed to bind, a copied one …). -/
+theorem prebind_writes_current_allocation (c c' : Option Annot) (a : PodAlloc) :
+    preBind c a = preBind c' a ∧ preBind c a = some (persist a) := ⟨rfl, rfl⟩
+
+/-- the events the live ledger sees for one object that is retried: Reserve, Unreserve per failed attempt, then the
+    Reserve of the attempt that binds. -/
+def retryEvs (failed : List PodAlloc) (last : PodAlloc) : List Ev :=
+  failed.flatMap (fun a => [Ev.upd a, Ev.rel a.uid]) ++ [Ev.upd last]
+
+theorem retry_ledger_is_history (topo : List Nat) (pre : List Ev) (c : Option Annot) (failed : List PodAlloc)
+    (last : PodAlloc) :
+    (retryHistory topo (run topo pre) c failed last).1 = run topo (pre ++ retryEvs failed last) := by
+  rw [retry_fst]
+  unfold run retryEvs
+  rw [List.foldl_append, List.foldl_append]
+  simp only [List.foldl_cons, List.foldl_nil, stepEv]
+  congr 1
+  generalize List.foldl (stepEv topo) St.init pre = s
+  unfold failedLedger
+  induction failed generalizing s with
+  | nil => rfl
+  | cons a rest ih =>
+    simp only [List.foldl_cons, List.flatMap_cons, List.foldl_append, List.foldl_nil, stepEv]
+    exact ih _
+
+/-- **retry history, persisted value**: whatever the object carried and whatever the failed attempts allocated, the
+    annotation the API server holds after the attempt that binds decodes to exactly that attempt's allocation. -/
+theorem retry_persisted_restores_last (topo : List Nat) (s : St) (c : Option Annot) (failed : List PodAlloc)
+    (last : PodAlloc) (hasc : last.cpus.Pairwise (· < ·)) (hmax : ∀ x ∈ last.cpus, x ≤ 4096)
+    (hne : last.cpus ≠ [] ∨ last.numa ≠ []) :
+    (retryHistory topo s c failed last).2.bind (restore last.uid last.excl) = some last := by
+  rw [retry_snd]; exact restore_persist last hasc hmax hne
+
+/-- **retry history, rebuilt = live**: after ANY live history `pre`, any number of failed attempts of one object (each
+    with its own allocation, on any NUMA node / CPUs) and the attempt that binds, a fresh cache fed the survivors in
+    any order is observationally equal to the live cache. -/
+theorem retry_rebuilt_eq_live (topo : List Nat) (maxRef : Nat) (pre : List Ev) (c : Option Annot)
+    (failed : List PodAlloc) (last : PodAlloc) (h : GoodEvs (pre ++ retryEvs failed last))
+    (l : List PodAlloc) (hl : l.Perm (survivors (pre ++ retryEvs failed last))) :
+    ObsEq topo maxRef (retryHistory topo (run topo pre) c failed last).1 (build topo l) := by
+  rw [retry_ledger_is_history]; exact live_eq_rebuilt topo maxRef _ h l hl
+
+/-- … and the survivors are the earlier survivors plus the LAST attempt's allocation: none of the failed attempts'. -/
+theorem retry_survivor_is_last (pre : List Ev) (failed : List PodAlloc) (last : PodAlloc)
+    (huid : ∀ a ∈ failed, a.uid = last.uid) (hnew : findPod last.uid (survivors pre) = none) :
+    survivors (pre ++ retryEvs failed last) = last :: survivors pre := by
+  unfold survivors retryEvs
+  rw [List.foldl_append, List.foldl_append]
+  generalize hps : List.foldl survStep [] pre = ps
+  unfold survivors at hnew
+  rw [hps] at hnew
+  have hf : List.foldl survStep ps (failed.flatMap (fun a => [Ev.upd a, Ev.rel a.uid])) = ps := by
+    clear hps
+    induction failed with
+    | nil => rfl
+    | cons a rest ih =>
+      have ha : a.uid = last.uid := huid a (List.mem_cons_self ..)
+      simp only [List.flatMap_cons, List.foldl_append, List.foldl_cons, List.foldl_nil, survStep]
+      have : erasePod a.uid (a :: erasePod a.uid ps) = ps := by
+        rw [ha, erasePod_of_findPod_none hnew]
+        unfold erasePod; simp [ha]
+      rw [this]
+      exact ih (fun b hb => huid b (List.mem_cons_of_mem _ hb))
+  rw [hf]
+  simp only [List.foldl_cons, List.foldl_nil, survStep]
+  rw [erasePod_of_findPod_none hnew]
+
+/-- independence from the carried annotation is NEEDED: a write that is skipped when the carried CPU-set text equals
+    the new one keeps a stale NUMA record for an allocation without a CPU set (shared-pool pod placed by a NUMA
+    topology policy: carried node 0, allocated node 1). -/
+theorem prebind_keep_on_equal_cpuset_counterexample :
+    ¬ (∀ (c : Option Annot) (a : PodAlloc), preBindKeepOnEqualCPUSet c a = some (persist a)) := by
+  intro h
+  have := h (some { text := [], numa := [⟨0, 6000, 0⟩] }) { uid := 1, cpus := [], excl := 0, numa := [⟨1, 6000, 0⟩] }
+  revert this
+  decide
+
+/-- non-vacuous: one failed attempt on NUMA node 0, the retry lands on node 1 -/
+example : (retryHistory [0, 0, 1, 1] St.init none [{ uid := 1, cpus := [], excl := 0, numa := [⟨0, 6000, 0⟩] }]
+    { uid := 1, cpus := [], excl := 0, numa := [⟨1, 6000, 0⟩] }).2 = some { text := [], numa := [⟨1, 6000, 0⟩] } := by decide
+
+/-- deviceshare: the device-allocated annotation PreBind leaves on the object is the allocation Reserve accounted
+    (`state.allocationResult`), whatever the feature gate, whatever (read-only) adapter runs for the GPU vendor,
+    whatever its verdict, and whatever the object carried (a retried object). -/
+theorem dev_prebind_persists_reserved_allocation {π : Type} (gate : Bool) (adapt : List DevPB.GAlloc → Option π)
+    (c c' : DevPB.Obj π) (al : List DevPB.GAlloc) :
+    (DevPB.preBind gate adapt c al).1.allocated = some al ∧
+    DevPB.preBind gate adapt c al = DevPB.preBind gate adapt c' al := ⟨DevPB.preBind_allocated gate adapt c al, rfl⟩
+
+/-- the order (annotation first, adapters read-only) is NEEDED: an adapter that aligns gpu-memory to its unit before
+    the annotation is written persists 768Mi for a reserved 1000Mi. -/
+theorem dev_prebind_aligned_after_adapt_counterexample :
+    DevPB.preBindAlignedAfterAdapt [⟨0, 50, 1000 * 1024 * 1024, 0⟩] = some [⟨0, 50, 768 * 1024 * 1024, 0⟩] ∧
+    DevPB.preBindAlignedAfterAdapt [⟨0, 50, 1000 * 1024 * 1024, 0⟩] ≠ some [⟨0, 50, 1000 * 1024 * 1024, 0⟩] := by
+  decide
+
+/-- non-vacuous: cambricon profile of an un-aligned amount (1000Mi = 3 units); the persisted allocation is untouched -/
+example : (DevPB.preBind true DevPB.cambriconAdapt ⟨none, none⟩ [⟨2, 50, 1000 * 1024 * 1024, 0⟩]).1.allocated
+      = some [⟨2, 50, 1000 * 1024 * 1024, 0⟩] ∧
+    DevPB.cambriconAdapt [⟨2, 50, 1000 * 1024 * 1024, 0⟩] = some (2, 50, 3) ∧
+    (DevPB.preBind true DevPB.cambriconAdapt ⟨none, none⟩ [⟨2, 50, 100 * 1024 * 1024, 0⟩]).2 = false := by decide
 
 end KoordVerif.C19
